@@ -3,6 +3,7 @@
    real operator by replaying recorded histories through its acceptor (harness/kv/cw_tie.py). *)
 From Coq Require Import Arith List Bool.
 From KV Require Import Model.CycleWorld Proofs.CycleWorld.
+From KV Require Model.PatchObj Proofs.Retrigger.
 Import ListNotations.
 
 (* Changes made while the operator is down are handled as ONE accumulated change: after
@@ -87,3 +88,26 @@ Theorem C03_reverted_change_refuted :
             /\ rget 0 (o_recs (w_srv w)) = Some (HOpen 1 30) /\ settled [] [0] (w_srv w) = false.
 Proof. exact reverted_change_witness. Qed.
 Print Assumptions C03_reverted_change_refuted.
+
+(* Function level (application.apply as modelled in Model/PatchObj.v, tied by D:apply_retrigger): a cycle that
+   reports a delay - some selected handler is unfinished - never ends silently.  Either it patched something
+   (the echo of the patch re-triggers the object), or it slept the delay out and patched the touch-dummy
+   (also for a ZERO delay with nothing to patch), or a new event interrupted the sleep (it is processed next).
+   For every patch, every delay list, every server behaviour that lets apply return. *)
+Theorem C03_unfinished_cycle_retriggers :
+  forall S serve diff has_sub patch0 clear fns orig delays woken touch_patch (s0 : S) r,
+  PatchObj.po_apply S serve diff has_sub patch0 clear fns orig delays woken touch_patch s0 = PatchObj.ApOk r ->
+  PatchObj.po_min delays <> None ->
+  PatchObj.po_patch_truthy patch0 fns = true
+  \/ PatchObj.ap_touched r = true
+  \/ (woken = true /\ PatchObj.ap_slept r <> None).
+Proof. exact Retrigger.apply_retriggers. Qed.
+Print Assumptions C03_unfinished_cycle_retriggers.
+
+(* ... and it reports "nothing left to do" only when there is neither a patch nor a delay. *)
+Theorem C03_quiet_only_when_done :
+  forall S serve diff has_sub patch0 clear fns orig delays woken touch_patch (s0 : S) r,
+  PatchObj.po_apply S serve diff has_sub patch0 clear fns orig delays woken touch_patch s0 = PatchObj.ApOk r ->
+  PatchObj.ap_applied r = true -> PatchObj.po_min delays = None /\ PatchObj.po_patch_truthy patch0 fns = false.
+Proof. exact Retrigger.apply_quiet_only_when_done. Qed.
+Print Assumptions C03_quiet_only_when_done.
